@@ -12,7 +12,7 @@
 From Coq Require Import List String Bool Permutation.
 Import ListNotations.
 From TV Require Import Merge.Model Merge.Spec Merge.ProofsRun Merge.ProofsC08 Merge.ProofsC08Mon Merge.ProofsC08Refs
-     Merge.ProofsKeys Merge.ProofsErrors Merge.ProofsReader Extracted.Facts Run.MergeCases Merge.ProofsCurrent.
+     Merge.ProofsKeys Merge.ProofsErrors Merge.ProofsReader Merge.ProofsC09 Extracted.Facts Run.MergeCases Merge.ProofsCurrent.
 
 (* the shape of Tasks.Merge / graph.Merge is one the model has a variant for *)
 Theorem C08_variant_known : variant_known = true.
@@ -155,6 +155,30 @@ Theorem C08_abort_iff_flag :
     (merge_err v g pi s = None <-> f_err (merge_all v g pi s) = None).
 Proof. exact abort_iff_flag. Qed.
 Print Assumptions C08_abort_iff_flag.
+
+(* the copies are independent: what reaches the including Taskfiles and the root (tasks, vars with the directory
+   stamped on them, env) does not depend on the order in which sibling Taskfiles are processed, provided the
+   includes are merged in declared order and Vars.Merge stamps include.Dir on a copy of the variable *)
+Theorem C08_copies_independent_of_sibling_order :
+  forall v g pi pi' s s', v_declared v = true -> v_inplace v = false -> valid_pi g pi -> valid_pi g pi' ->
+    merge_all v g pi s = merge_all v g pi' s'.
+Proof. exact det_declared. Qed.
+Print Assumptions C08_copies_independent_of_sibling_order.
+
+(* [HISTORICAL, repaired by 9941da6] with the in-place write into the included Taskfile's variables, a diamond with
+   one long-form (dir:) and one short-form include of the same file gives the short-form branch and the root the
+   long-form dir or not, depending on which sibling is processed first (in the code: on the file names) *)
+Theorem C08_vardir_inplace_refuted :
+  let g := graph_of fs_dirleak in
+  topob g pi_app_first = true /\ topob g pi_lib_first = true /\
+  f_err (merge_all inplace_variant g pi_app_first sigma_id) = None /\
+  f_err (merge_all inplace_variant g pi_lib_first sigma_id) = None /\
+  f_vars (merge_all inplace_variant g pi_app_first sigma_id) = [("WHERE", "|sh=basename $PWD")]%string /\
+  f_vars (merge_all inplace_variant g pi_lib_first sigma_id) = [("WHERE", "/R/appdir|sh=basename $PWD")]%string /\
+  f_vars (merge_all copy_variant g pi_app_first sigma_id) = [("WHERE", "|sh=basename $PWD")]%string /\
+  f_vars (merge_all copy_variant g pi_lib_first sigma_id) = [("WHERE", "|sh=basename $PWD")]%string.
+Proof. exact vardir_inplace_refuted. Qed.
+Print Assumptions C08_vardir_inplace_refuted.
 
 (* non-vacuity: a diamond of four files (b and d include c, d flattened) meets valid_load and loads without error *)
 Example C08_example :
